@@ -1809,7 +1809,7 @@ def model_class(cls_ast: ast.ClassDef, name: str = "Model"):
     ms = dict(methods(cls_ast))
     ns: Dict[str, object] = {"_methods": ms}
     for mname, m in ms.items():
-        if mname in ("__init__", "__repr__", "__str__", "__getattr__", "__setattr__", "__hash__", "__eq__", "__new__", "__del__"):
+        if mname in ("__init__", "__repr__", "__str__", "__getattr__", "__setattr__", "__hash__", "__new__", "__del__"):
             continue
         decos = {(dotted(d) or "").split(".")[-1] for d in getattr(m, "decorator_list", [])}
         if "staticmethod" in decos:
@@ -1820,6 +1820,8 @@ def model_class(cls_ast: ast.ClassDef, name: str = "Model"):
             ns[mname] = property(lambda self_, _m=m: MiniEval.call(_m, (self_,), {}))
         else:
             ns[mname] = (lambda self_, *a, _m=m, **k: MiniEval.call(_m, (self_,) + a, k))
+    if "__eq__" in ns:
+        ns["__hash__"] = object.__hash__    # keep model objects hashable; identity hash like the modelled class declares or inherits
     return type(name, (ModelObj,), ns)
 
 
@@ -1861,7 +1863,8 @@ def resolve_locals(func, e: ast.AST, rounds: int = 3) -> ast.AST:
 
 _MINI_BUILTINS = {"len": len, "max": max, "min": min, "abs": abs, "range": range, "list": list, "sorted": sorted, "int": int,
                   "float": float, "bool": bool, "enumerate": enumerate, "tuple": tuple, "sum": sum, "any": any, "all": all,
-                  "reversed": reversed, "isinstance": lambda *a: True, "True": True, "False": False, "None": None}
+                  "reversed": reversed, "isinstance": lambda *a: True, "True": True, "False": False, "None": None,
+                  "NotImplemented": NotImplemented, "object": object}
 _PY_EXC = {"ValueError": ValueError, "IndexError": IndexError, "KeyError": KeyError, "AttributeError": AttributeError,
            "TypeError": TypeError, "Exception": Exception, "BaseException": BaseException, "LookupError": LookupError}
 
@@ -1993,9 +1996,14 @@ class MiniEval:
         elif isinstance(s, (ast.FunctionDef,)):
             self.env[s.name] = lambda *a, _f=s, **k: MiniEval.call(_f, a, k)
         elif isinstance(s, ast.Delete):
-            for t in s.targets:
+            flat = [x for t in s.targets for x in (t.elts if isinstance(t, (ast.Tuple, ast.List)) else [t])]
+            for t in flat:
                 if isinstance(t, ast.Subscript):
                     del self.expr(t.value)[self.index(t.slice)]
+                elif isinstance(t, ast.Attribute):
+                    delattr(self.expr(t.value), t.attr)
+                elif isinstance(t, ast.Name):
+                    self.env.pop(t.id, None)
                 else:
                     raise Unsupported(f"MiniEval: del {src(t)}")
         else:
@@ -2573,3 +2581,61 @@ def per_instance_state(ctx, mod, concrete: ast.ClassDef, attr: str, modname: str
     else:
         msg = f"self.{attr} is not created per instance: {where}"
     ctx.violation(rule, c, msg, witness=wit)
+
+
+# =========================================================================== equality of tracked objects is identity
+_EQ_LOCATORS = ("remove", "index", "count", "__contains__")
+
+
+def equality_locator_sites(cls: ast.ClassDef, attrs) -> List[Tuple[str, ast.AST]]:
+    """Places in ``cls`` that find an element of ``self.<attr>`` (or a local alias of it) by ``==``: list.remove / index / count,
+    as a call or as a bound method handed out, and ``x in self.<attr>``.  -> [(method name, node)]"""
+    out = []
+    for name, f in methods(cls).items():
+        alias = set()
+        for st in ast.walk(f):
+            if isinstance(st, ast.Assign) and len(st.targets) == 1 and isinstance(st.targets[0], ast.Name) and _sattr(st.value, getattr(st.value, "attr", "")) \
+                    and st.value.attr in attrs:
+                alias.add(st.targets[0].id)
+
+        def is_tracked(e):
+            return (isinstance(e, ast.Attribute) and isinstance(e.value, ast.Name) and e.value.id == "self" and e.attr in attrs) or (
+                isinstance(e, ast.Name) and e.id in alias)
+        for n in ast.walk(f):
+            if isinstance(n, ast.Attribute) and n.attr in _EQ_LOCATORS and is_tracked(n.value):
+                out.append((name, n))
+            elif isinstance(n, ast.Compare) and any(isinstance(op, (ast.In, ast.NotIn)) for op in n.ops) and any(is_tracked(c) for c in n.comparators):
+                out.append((name, n))
+    return out
+
+
+def check_equality_is_identity(ctx, mod_elem, elem_cls: ast.ClassDef, owner_qual: str, sites, rule="identity/located-by-equality"):
+    """Containers of ``elem_cls`` objects are searched with ``==`` at ``sites``; that finds *the* object only while
+    equality of the class is identity: no __eq__/__ne__ anywhere in its MRO inside the module (or one that is `self is other`),
+    and no decorator that synthesises one."""
+    offenders = []
+    for k in _mro_classes(mod_elem, elem_cls):
+        for name in ("__eq__", "__ne__"):
+            m = methods(k).get(name)
+            if m is not None:
+                r = single_return(m)
+                ident = r is not None and isinstance(r, ast.Compare) and len(r.ops) == 1 and isinstance(r.ops[0], (ast.Is if name == "__eq__" else ast.IsNot,)) \
+                    and {src(r.left), src(r.comparators[0])} == {a.arg for a in m.args.args[:2]}
+                if not ident:
+                    offenders.append(f"{k.name}.{name} (`{src(r) if r is not None else 'several returns'}`)")
+            from sa.source import class_assigns
+            v = class_assigns(k).get(name)
+            if v is not None and src(v) not in ("object.__eq__", "object.__ne__"):
+                offenders.append(f"{k.name}.{name} = {src(v)}")
+        for d in k.decorator_list:
+            dn = (dotted(d.func) if isinstance(d, ast.Call) else dotted(d)) or ""
+            if dn.split(".")[-1] in ("dataclass", "s", "attrs", "define", "attributes"):
+                eq_off = isinstance(d, ast.Call) and any(kw.arg in ("eq", "cmp") and isinstance(kw.value, ast.Constant) and kw.value.value is False for kw in d.keywords)
+                if not eq_off:
+                    offenders.append(f"@{dn} on {k.name} (synthesises __eq__)")
+    for meth, node in sites:
+        ctx.check(not offenders, rule, ctx.construct(f"{owner_qual}.{meth}", node),
+                  f"`{src(node)}` finds its element with `==`, but {elem_cls.name} equality is not identity: {'; '.join(offenders)} - another object "
+                  "that compares equal (e.g. a call scheduled for the same time) is removed / sifted instead of the one meant",
+                  detail=f"no __eq__/__ne__ (nor a synthesising decorator) in the MRO of {elem_cls.name} within its module")
+    return offenders
